@@ -30,6 +30,7 @@ ENERGY = "energy-gradient"
 INPLACE = "intermediate-observable-gradient"
 ZEROCOT = "zero-cotangent-raises"
 FLATWF = "flat-waveform-gradient-wrong"
+ZEROU = "interaction-gradient-missing-for-zero-coupling"
 HEADER_AD = """From Coq Require Import ZArith List PrimFloat.
 Import ListNotations.
 From EV Require Import Base.Arith Model.Pchip Model.PchipAD.
@@ -154,18 +155,29 @@ def pchip_oracle(ctx, case, out, grad):
         return
     x, y, q, w = case["x"], case["y"], case["q"], case["w"]
     scale = max(1.0, max(abs(v) for v in y))
-    eps = 1e-6 * scale
+    # the harmonic mean is strongly curved where secants are small: the step must be small against the smallest
+    # non-zero increment of the data, and the quotient must not depend on the step
+    incs = [abs(y[i + 1] - y[i]) for i in range(len(y) - 1) if y[i + 1] != y[i]]
+    eps0 = min(1e-6 * scale, 1e-3 * min(incs)) if incs else 1e-6 * scale
+    s0 = mask_signature(x, y)
     for dname, direction in case.get("directions", []):
-        yp = [a + eps * b for a, b in zip(y, direction)]
-        ym = [a - eps * b for a, b in zip(y, direction)]
-        s0 = mask_signature(x, y)
-        if mask_signature(x, yp) != s0 or mask_signature(x, ym) != s0:
-            continue  # a kink of the interpolant: the derivative along this direction does not exist
-        fp, fm = pchip_forward(x, yp, q), pchip_forward(x, ym, q)
-        fd = sum(float(a - b) * c for a, b, c in zip(fp, fm, w)) / (2 * eps)
+        dmax = max(abs(b) for b in direction) or 1.0
+        gs = max(1.0, max(abs(g) for g in grad)) * dmax
+        tolfd = 1e-5 * gs * max(1.0, sum(abs(c) for c in w))
+        fds = []
+        for eps in (eps0 / dmax, 0.25 * eps0 / dmax):
+            yp = [a + eps * b for a, b in zip(y, direction)]
+            ym = [a - eps * b for a, b in zip(y, direction)]
+            if mask_signature(x, yp) != s0 or mask_signature(x, ym) != s0:
+                fds = None  # a kink of the interpolant: the derivative along this direction does not exist
+                break
+            fp, fm = pchip_forward(x, yp, q), pchip_forward(x, ym, q)
+            fds.append(sum(float(a - b) * c for a, b, c in zip(fp, fm, w)) / (2 * eps))
+        if fds is None or abs(fds[0] - fds[1]) > 0.5 * tolfd:
+            continue  # the difference quotient is not converged (curvature or rounding): no verdict from it
+        fd = fds[1]
         ad = sum(g * b for g, b in zip(grad, direction))
-        gs = max(1.0, max(abs(g) for g in grad)) * max(abs(b) for b in direction)
-        if abs(fd - ad) > 1e-5 * gs * max(1.0, sum(abs(c) for c in w)):
+        if abs(fd - ad) > tolfd:
             ctx.violation(f"PCHIP1D gradient along '{dname}' is {ad!r} but the central difference is {fd!r}",
                           {"case": case, "finding_key": "pchip-gradient-wrong", "kind": "pchip", "direction": dname})
             return
@@ -481,6 +493,41 @@ def gen_sv_annihilation(rng, n, variant):
 SV_ANNIHILATION = ("lead-zero-omega", "lead-zero-omega", "zero-H-step", "eigen-psi0", "basis-cotangent", "all-idle")
 
 
+def gen_sv_sparse_U(rng, n, pattern):
+    """Interaction matrices with exact zeros (dH/dU_ij = n_i n_j does not depend on the value of U_ij, C30_dH_dU_linear):
+    chain, star, two clusters, all-zero, a single zero entry.  Random initial state and strong drives, so that every
+    pair (i, j) has a sizeable gradient."""
+    steps = rng.choice([2, 3])
+    spec = gen_sv_spec(rng, n, steps, rng.choice(["state", "fidelity", "occupation"]), rng.choice(["zero", "nonzero"]))
+    D_ = 2 ** n
+    v = [complex(rng.gauss(0, 1), rng.gauss(0, 1)) for _ in range(D_)]
+    nv = math.sqrt(sum(abs(a) ** 2 for a in v))
+    spec["psi0"] = [[a.real / nv, a.imag / nv] for a in v]
+    pairs = [(i, j) for i in range(n) for j in range(i + 1, n)]
+    if pattern == "chain":
+        keep = {(i, i + 1) for i in range(n - 1)} if n > 2 else set()
+    elif pattern == "star":
+        keep = {(0, j) for j in range(1, n)} if n > 2 else set()
+    elif pattern == "clusters":
+        h = max(1, n // 2)
+        keep = {(i, j) for (i, j) in pairs if (i < h) == (j < h)}
+    elif pattern == "all-zero":
+        keep = set()
+    elif pattern == "single-zero":
+        keep = set(pairs) - {rng.choice(pairs)}
+    else:
+        raise ValueError(pattern)
+    U = [[0.0] * n for _ in range(n)]
+    for (i, j) in keep:
+        U[i][j] = U[j][i] = rng.uniform(0.5, 6.0)
+    spec["U"] = U
+    spec["variant"] = "sparse-U:" + pattern
+    return spec
+
+
+SPARSE_U = ("chain", "star", "clusters", "all-zero", "single-zero")
+
+
 def dense_ref_loss(spec, tens):
     """Independent reference: the same piecewise-constant evolution with torch.linalg.matrix_exp of the dense
     Hamiltonian (float64, ordinary autograd; documented convention, shares no code with /repo) and the same loss."""
@@ -649,6 +696,25 @@ def sv_grad_check(ctx, spec, max_fd=6):
                                    "entry": [k, list(ix)], "oracle": "dense autograd"})
                     summary["outcome"] = "mismatch"
                     return summary
+        gl = torch.tril(grads["U"])
+        if bool((gl != 0).any()):  # C30_dH_dU_lower_is_zero: H does not read the diagonal / lower triangle
+            ix = tuple(torch.nonzero(gl)[0].tolist())
+            ctx.violation(f"gradient w.r.t. the interaction matrix entry {list(ix)} (diagonal / lower triangle, which the "
+                          f"Hamiltonian does not read) is {float(gl[ix])!r}, not exactly 0",
+                          {"case": tspec, "finding_key": "interaction-gradient-lower-triangle-nonzero", "kind": "sv"})
+            summary["outcome"] = "mismatch"
+            return summary
+        zu = (base_t["U"] == 0) & (grads["U"] == 0) & torch.triu(torch.ones_like(base_t["U"]), 1).bool()
+        dz = (rgr["U"].abs() * zu)
+        if not energy and bool((dz > allowed("U", tol)).any()):
+            ix = tuple(torch.nonzero(dz == dz.max())[0].tolist())
+            ctx.violation(f"gradient of the {spec['loss']} loss w.r.t. U{list(ix)} is exactly 0 where the coupling is "
+                          f"exactly 0, but dH/dU_ij = n_i n_j does not depend on the value: the dense reference gives "
+                          f"{float(rgr['U'][ix])!r} (n={spec['n']}, steps={steps}, U = {spec['U']})",
+                          {"case": tspec, "finding_key": ZEROU, "kind": "sv", "entry": ["U", list(ix)],
+                           "oracle": "dense autograd"})
+            summary["outcome"] = "mismatch"
+            return summary
         for k in names:
             diff = (grads[k] - rgr[k]).abs()
             err = float(diff.max())
@@ -983,7 +1049,11 @@ def adapter_oracle(ctx, case, fwd, grads):
                           {"case": case, "finding_key": "adapter-gradient-wrong", "kind": "adapter"})
             return
         flat = all(a == y[0] for a in y)
-        if flat and len(w) >= 2 and sum(1 for a in w if a != 0) >= 2 and case["dt"] < case["T"]:
+        tmid = [0.5 * (case["tt"][i] + case["tt"][i + 1]) for i in range(len(w))]
+        inside = sum(1 for a, t in zip(w, tmid) if a != 0 and t <= case["T"] - 1)
+        # a midpoint inside the grid depends on the two samples around it (and, next to an end, on the end slope):
+        # two such midpoints with non-zero weight touch at least two different samples
+        if flat and case["T"] >= 4 and inside >= 2:
             nz = [k for k, a in enumerate(g) if a != 0]
             if len(nz) <= 1:
                 ctx.violation(f"flat {name} signal ({case['sigkinds'][name]}, {len(y)} equal samples): the whole gradient "
@@ -1216,6 +1286,16 @@ def run(ctx):
         ann[f"{variant}/{s.get('outcome')}"] = ann.get(f"{variant}/{s.get('outcome')}", 0) + 1
         ctx.count_case({"kind": "sv-annihilation", "variant": variant, **s}, nontrivial=True)
     ctx.extra["sv_annihilation_runs"] = dict(sorted(ann.items()))
+    # interaction matrices with exact zeros: the gradient w.r.t. U entry by entry
+    spu = {}
+    for i in range(ctx.n(10, 60)):
+        pattern = SPARSE_U[i % len(SPARSE_U)]
+        spec = gen_sv_sparse_U(rng, 2 + (i // len(SPARSE_U)) % 4, pattern)
+        s = sv_grad_check(ctx, spec, max_fd=3)
+        sv_summ.append(s)
+        spu[f"{pattern}/{s.get('outcome')}"] = spu.get(f"{pattern}/{s.get('outcome')}", 0) + 1
+        ctx.count_case({"kind": "sv-sparse-U", "pattern": pattern, **s}, nontrivial=True)
+    ctx.extra["sv_sparse_interaction_runs"] = dict(sorted(spu.items()))
     ctx.extra["sv_gradient_runs"] = {"runs": len(sv_summ),
                                "worst_fraction_of_derived_bound(dense autograd, ok runs)":
                                    max([s.get("worst_fraction_of_bound", 0.0) for s in sv_summ if s.get("outcome") == "ok"] + [0.0]),
@@ -1251,7 +1331,9 @@ def run(ctx):
                 "custom waveform with equal / zero samples, constant detuning over a whole sequence). adapter: T = 2..40 "
                 "samples, dt 1..10, amp/det/phase signals flat / zero / ramp / pulse / steps / gauss, random weights on the "
                 "midpoints. sv-annihilation: H psi = 0 first steps, H = 0 steps, eigenvector initial states, basis "
-                "cotangents, all-idle runs. one PRNG; distinct by input hash")
+                "cotangents, all-idle runs. sv-sparse-U: n = 2..5, interaction matrices with exact zeros (chain, star, "
+                "two clusters, all-zero, single zero entry), random initial state, gradient w.r.t. U entry by entry, "
+                "diagonal and lower triangle exactly 0. one PRNG; distinct by input hash")
     ctx.trusted_base += ["hand-written models coq/Model/PchipAD.v (tape + VJP rules) and coq/Model/SvGrad.v, validated "
                          "against torch on every run", "Coq PrimFloat = IEEE binary64 = torch float64 elementwise kernels",
                          "torch's VJP formulas for add/sub/mul/div/where as transcribed in Model/PchipAD.v (validated by "
